@@ -100,3 +100,36 @@ func HUrl(sch int, form int, form2 int, mixMask int, zeros int, junk int, nulAt 
 	vAssert(isXSS("<a href=\""+v+"\">", html5FlagsDataState), "URL attribute with the encoded scheme is XSS")
 	vCover("checked")
 }
+
+// HDecodeT: references with many leading zeros (the interesting boundary for digit-count slips): "&#" [x] 0{zeros} + n free bytes.
+func HDecodeT(n int, zeros int, hex int) {
+	pre := "&#"
+	if hex == 1 {
+		pre += vB(vByteIn("xX"))
+	}
+	s := pre + "00000000000000000000"[:zeros] + vNondetString(n)
+	v, c := htmlDecodeByteAt(s)
+	sv, sc := specDecode(s)
+	vAssert(c >= 1 && c <= len(s), "consumed count in range")
+	vAssert(c == sc, "consumed count equals the reference decoder's")
+	vAssert(v == sv, "decoded value equals the reference decoder's")
+	vCover("checked")
+}
+
+// HClassTotal (C02): the classifiers never panic on any string. which: 0 tag, 1 attr, 2 URL, 3 decoder, 4 encoded prefix test.
+func HClassTotal(n int, which int) {
+	s := vNondetString(n)
+	switch which {
+	case 0:
+		isBlackTag(s)
+	case 1:
+		isBlackAttr(s)
+	case 2:
+		isBlackURL(s)
+	case 3:
+		htmlDecodeByteAt(s)
+	case 4:
+		htmlEncodeStartsWith("JAVA", s)
+	}
+	vCover("done")
+}
